@@ -177,7 +177,8 @@ HAND = {
     "SelfRec": (False, None), "MutA": (False, None), "MutB": (False, None), "Cyc1": (False, None), "Cyc2": (False, None),
     "Cyc3": (False, None), "OnlyAsParam": (False, None), "ParamOnly": (False, None), "PCycA": (False, None), "PCycB": (False, None),
     "Shared": (False, None), "Left": (False, None), "Right": (False, None), "Top": (False, None), "SharedTwin": (False, None),
-    "SharedAlias": (False, "vcommon::hand::Shared"), "NamedPrim": (False, None),
+    "SharedAlias": (False, "vcommon::hand::Shared"), "NamedPrim": (False, None), "HandBits": (False, None), "HandBitsMsb": (False, None),
+    "LocalA": (False, None), "LocalB": (False, None),
 }
 
 
@@ -189,6 +190,9 @@ def hand(name):
 def core_types():
     """Seed independent. Designed for coverage of every impl family named in C04 / C05."""
     out = []
+    # tuples that repeat an element type, placed first so that their members are first met through the tuple
+    out += [T("tuple", [hand("MutA"), hand("Cyc1"), hand("MutA")]), T("tuple", [hand("Top"), hand("SelfRec"), hand("Top"), hand("SelfRec"), hand("ParamOnly")]),
+            T("tuple", [hand("LocalB"), hand("LocalA"), hand("LocalB")])]
     prims = [P(n) for n in ["bool"] + PRIMS_U + PRIMS_I]
     out += prims
     out += [T("char"), STRING, STR, UNIT, T("duration")]
